@@ -8,6 +8,32 @@ pub struct Rules<'a> {
     pub ctx: &'a mut Ctx,
 }
 
+struct DerefReplacer {
+    ident: String,
+    rep: syn::Expr,
+    n: usize,
+}
+impl VisitMut for DerefReplacer {
+    fn visit_expr_mut(&mut self, e: &mut syn::Expr) {
+        if let syn::Expr::Unary(u) = e {
+            if matches!(u.op, syn::UnOp::Deref(_)) {
+                if let syn::Expr::Path(p) = &*u.expr {
+                    if p.path.is_ident(&self.ident) {
+                        *e = self.rep.clone();
+                        self.n += 1;
+                        return;
+                    }
+                }
+            }
+        }
+        syn::visit_mut::visit_expr_mut(self, e);
+    }
+}
+fn mentions(b: &syn::Block, ident: &str) -> bool {
+    let s = b.to_token_stream().to_string();
+    s.split(|c: char| !(c.is_alphanumeric() || c == '_')).any(|w| w == ident)
+}
+
 pub fn lit_name(tok: &str) -> String {
     let t = tok.trim_end_matches("f64").trim_end_matches('_').replace('_', "");
     format!("lit_{}", t.replace('.', "_").replace('-', "m").replace('+', ""))
@@ -117,6 +143,38 @@ impl<'a> VisitMut for Rules<'a> {
                 if let syn::Expr::MethodCall(en) = &*fl.expr {
                     if en.method == "enumerate" {
                         if let syn::Expr::MethodCall(it) = &*en.receiver {
+                            if it.method == "iter_mut" {
+                                if let syn::Pat::Tuple(tp) = &*fl.pat {
+                                    if tp.elems.len() == 2 {
+                                        if let syn::Pat::Ident(xid) = &tp.elems[1] {
+                                            let ipat = tp.elems[0].clone();
+                                            let recv = (*it.receiver).clone();
+                                            let mut body = fl.body.clone();
+                                            let k = self.ctx.fresh();
+                                            let nn = syn::Ident::new(&format!("vx_n{}", k), proc_macro2::Span::call_site());
+                                            let ii = syn::Ident::new(&format!("vx_i{}", k), proc_macro2::Span::call_site());
+                                            let mut dr = DerefReplacer { ident: xid.ident.to_string(), rep: syn::parse_quote!(#recv[#ii]), n: 0 };
+                                            dr.visit_block_mut(&mut body);
+                                            if mentions(&body, &xid.ident.to_string()) {
+                                                crate::lost(&format!("R4: `{}` of an iter_mut().enumerate() loop is used other than as `*{}`", xid.ident, xid.ident));
+                                            }
+                                            let stmts = &body.stmts;
+                                            let label = fl.label.clone();
+                                            let new: syn::Expr = syn::parse_quote!({
+                                                let #nn = #recv.len();
+                                                #label for #ii in 0..#nn {
+                                                    let #ipat = #ii;
+                                                    #(#stmts)*
+                                                }
+                                            });
+                                            *e = new;
+                                            self.ctx.used("R4");
+                                            syn::visit_mut::visit_expr_mut(self, e);
+                                            return;
+                                        }
+                                    }
+                                }
+                            }
                             if it.method == "iter" {
                                 if let syn::Pat::Tuple(tp) = &*fl.pat {
                                     if tp.elems.len() == 2 {
@@ -126,11 +184,14 @@ impl<'a> VisitMut for Rules<'a> {
                                         let body = fl.body.clone();
                                         let stmts = &body.stmts;
                                         let label = fl.label.clone();
+                                        let k = self.ctx.fresh();
+                                        let nn = syn::Ident::new(&format!("vx_n{}", k), proc_macro2::Span::call_site());
+                                        let ii = syn::Ident::new(&format!("vx_i{}", k), proc_macro2::Span::call_site());
                                         let new: syn::Expr = syn::parse_quote!({
-                                            let vx_n = #recv.len();
-                                            #label for vx_i in 0..vx_n {
-                                                let #ipat = vx_i;
-                                                let #xpat = &#recv[vx_i];
+                                            let #nn = #recv.len();
+                                            #label for #ii in 0..#nn {
+                                                let #ipat = #ii;
+                                                let #xpat = &#recv[#ii];
                                                 #(#stmts)*
                                             }
                                         });
@@ -155,9 +216,11 @@ impl<'a> VisitMut for Rules<'a> {
                             let pat = fl.pat.clone();
                             let body = fl.body.clone();
                             let label = fl.label.clone();
+                            let k = self.ctx.fresh();
+                            let nn = syn::Ident::new(&format!("vx_n{}", k), proc_macro2::Span::call_site());
                             let new: syn::Expr = syn::parse_quote!({
-                                let vx_n = #endc;
-                                #label for #pat in #start #limits vx_n #body
+                                let #nn = #endc;
+                                #label for #pat in #start #limits #nn #body
                             });
                             *e = new;
                             self.ctx.used("R11");
